@@ -554,7 +554,7 @@ func (t *Teamserver) handleRequest(id string) {
 		return
 	}
 	if !t.ClientAuthenticate(pk) {
-		logger.Error("Client [User: " + pk.Body.Info["User"].(string) + "] failed to Authenticate! (" + colors.Red(client.GlobalIP) + ")")
+		logger.Error("Client [User: " + fmt.Sprint(pk.Body.Info["User"]) + "] failed to Authenticate! (" + colors.Red(client.GlobalIP) + ")")
 		err := t.SendEvent(id, events.Authenticated(false))
 		if err != nil {
 			logger.Error("client (" + colors.Red(id) + ") error while sending authenticate message: " + colors.Red(err))
@@ -567,7 +567,7 @@ func (t *Teamserver) handleRequest(id string) {
 		return
 	} else {
 
-		logger.Good("User <" + colors.Blue(pk.Body.Info["User"].(string)) + "> " + colors.Green("Authenticated"))
+		logger.Good("User <" + colors.Blue(fmt.Sprint(pk.Body.Info["User"])) + "> " + colors.Green("Authenticated"))
 
 		client.Authenticated = true
 		client.ClientID = id
@@ -578,7 +578,11 @@ func (t *Teamserver) handleRequest(id string) {
 		}
 	}
 
-	client.Username = pk.Body.Info["User"].(string)
+	if Username, ok := pk.Body.Info["User"].(string); ok {
+		client.Username = Username
+	} else {
+		client.Username = pk.Head.User
+	}
 	packageNewUser := events.ChatLog.NewUserConnected(client.Username)
 	t.EventAppend(packageNewUser)
 	t.EventBroadcast(id, packageNewUser)
@@ -662,7 +666,7 @@ func (t *Teamserver) ClientAuthenticate(pk packager.Package) bool {
 
 					// check if the operator was even found
 					if UserFound {
-						if pk.Body.Info["Password"].(string) == UserPassword {
+						if Password, ok := pk.Body.Info["Password"].(string); ok && Password == UserPassword {
 							logger.Debug("User " + colors.Red(UserName) + " is authenticated")
 							return true
 						}
@@ -684,7 +688,7 @@ func (t *Teamserver) ClientAuthenticate(pk packager.Package) bool {
 		logger.Error("Not a Authenticate request")
 	}
 
-	logger.Error("Client failed to authenticate with password hash :: " + pk.Body.Info["Password"].(string))
+	logger.Error("Client failed to authenticate with password hash :: " + fmt.Sprint(pk.Body.Info["Password"]))
 	return false
 }
 
